@@ -35,7 +35,7 @@ Fixpoint dots_go (s : bytes) : bytes :=
 Definition dots (s : bytes) : bytes := if is_ascii s then dots_go s else [78].
 
 Definition print_token (t : token) : bytes :=
-  dec (t_typ t) ++ 44 :: dec (t_start t) ++ 44 :: dec (t_end t) ++ 44 :: dec (t_line t) ++ 44 :: dec (t_col t)
+  dec (t_typ t) ++ 44 :: dec (t_start t) ++ 44 :: dec (t_end t) ++ 44 :: dec (t_len t) ++ 44 :: dec (t_line t) ++ 44 :: dec (t_col t)
   ++ 44 :: dec (t_lin t) ++ 44 :: dec (t_ctx t) ++ 44 :: dots (t_tag t) ++ 44 :: dots (t_att t) ++ [59].
 
 Definition print_outcome (o : outcome) : option bytes :=
